@@ -290,7 +290,7 @@ impl IsoDateTime {
 /// These fields are used for the `Temporal.PlainDate` object, the
 /// `Temporal.YearMonth` object, and the `Temporal.MonthDay` object.
 #[non_exhaustive]
-#[derive(Debug, Clone, Copy, Default, PartialEq, Eq, PartialOrd, Ord)]
+#[derive(Debug, Clone, Copy, PartialEq, Eq, PartialOrd, Ord)]
 pub struct IsoDate {
     /// An ISO year within a range -271821..=275760
     pub year: i32,
@@ -298,6 +298,18 @@ pub struct IsoDate {
     pub month: u8,
     /// An ISO day within a valid range of 1..=31
     pub day: u8,
+}
+
+/// The default date is the epoch day 1970-01-01 (a derived default would be the
+/// invalid date 0000-00-00, which the date types built on this record would expose).
+impl Default for IsoDate {
+    fn default() -> Self {
+        Self {
+            year: 1970,
+            month: 1,
+            day: 1,
+        }
+    }
 }
 
 impl IsoDate {
